@@ -48,6 +48,20 @@ func gz(b []byte) []byte {
 	return buf.Bytes()
 }
 
+// stalePath returns the process's ONE output path for the file-writing wrappers of a format.  It starts out holding a
+// long stale document and is never truncated or removed by the harness in between: a Write must replace whatever an
+// earlier, longer Write (or anybody else) left at that path.
+var stalePaths = map[string]string{}
+
+func stalePath(kind string) string {
+	if p, ok := stalePaths[kind]; ok {
+		return p
+	}
+	p := tmpFile([]byte(strings.Repeat(">stale record left by an earlier, longer document\nACGTACGTACGTACGTACGTACGT\n", 4000)))
+	stalePaths[kind] = p
+	return p
+}
+
 func tmpFile(b []byte) string {
 	f, err := os.CreateTemp("", "polyverif-fa-*")
 	if err != nil {
@@ -268,10 +282,9 @@ func c13Record(tier string, seed int64, emit func(interface{})) {
 		// (a) the library's own writer, then a reader
 		text := fasta.Build(recs)
 		if via == "read" && rng.Intn(2) == 0 {
-			p := tmpFile(nil)
+			p := stalePath("fasta")
 			fasta.Write(recs, p)
 			text, _ = os.ReadFile(p)
-			os.Remove(p)
 		}
 		got, closes, pm := readVia(via, text, cap, rng)
 		emit(map[string]interface{}{"k": "rt", "via": via, "cap": cap, "written": written, "got": got, "closes": closes, "panic": pm != "", "msg": pm})
